@@ -27,7 +27,7 @@ DEV = {
     "alpha0": [["5e-3"], ["1.2345678e-3"]], "alpha1": [["0.01"], ["-0.0234567"]], "alpha2": [["0.5"]],
     "SynchrotronFrequency": [["45000"], ["8123.4561"]], "RevolutionFrequency": [["2.7e6"], ["1234567.9"]], "DampingTime": [["0.001"], ["2.5123456789e-3"]],
     "HarmonicNumber": [["184"]], "InitialDistZoom": [["0.8"], ["1.3456789012"]],
-    "BunchCurrent": [["1e-3"], ["1e-3", "0", "2.3456789e-3"], ["1.2345678e-4", "1.2345678e-4"]], "BendingRadius": [["5.559"], ["1.0000000001"]],
+    "BunchCurrent": [["1e-3"], ["1e-3", "0", "2.3456789e-3"], ["1.2345678e-4", "1.2345678e-4"], ["0", "2e-3", "1e-3"], ["1e-3", "0"]], "BendingRadius": [["5.559"], ["1.0000000001"]],
     "BeamEnergy": [["2.5e9"], ["1300000001"]], "BeamEnergySpread": [["1e-3"], ["4.7123456789e-4"]], "Impedance": [["z.dat"]],
     "VacuumGap": [["-0.03"], ["0.0512345678"], ["0"]], "UseCSR": [["false"]], "CollimatorRadius": [["0.002"], ["0.00123456789"]],
     "WallConductivity": [["5.8e7"], ["1412345.678"]], "WallSusceptibility": [["-0.5"]], "CutoffFreq": [["0"], ["1.2345678e10"]],
